@@ -680,6 +680,10 @@ def _scanner(rep, M, src):
             E = Engine(M, inline_depth=0)
             paths, fr = loop_paths_at(E, f, wl)
             ctl = [x.id for x in ast.walk(wl.test) if isinstance(x, ast.Name)]
+            if not ctl and isinstance(wl.test, ast.Constant) and wl.test.value is True:
+                # `while True:` left by return / break / raise: the scan positions are the integer locals the body re-assigns from a find() result or by stepping
+                ctl = sorted({t.id for n in ast.walk(wl) if isinstance(n, ast.Assign) for t in n.targets if isinstance(t, ast.Name)
+                              and (isinstance(n.value, ast.BinOp) or (isinstance(n.value, ast.Call) and isinstance(n.value.func, ast.Attribute) and n.value.func.attr in ("find", "index", "rfind")))})
             for p in paths:
                 if p.status not in ("run", "continue"):
                     continue
@@ -860,15 +864,27 @@ def _helper_progress(h, M=None):
                         break
     if rets and n_ok == len(rets):
         return True
-    if M is not None and n_ok:
+    if M is not None:
         params = [a.arg for a in h.args.args]
         try:
-            for p in Engine(M, inline_depth=0).run(Func("dlde", None, h.name, h)):
-                if p.status == "return" and isinstance(p.ret, tuple):
-                    first = p.ret[1][0] if p.ret[0] == "tuple" and p.ret[1] else p.ret
-                    if isinstance(first, tuple) and len(first) == 2 and first[0] == "p" and first[1] in params:
-                        line = max([g[2] for g in p.guards] or [h.lineno])
-                        return ("stuck", params.index(first[1]), line, "; ".join(("" if pol else "not ") + show_sv(g)[:60] for g, pol, _ in p.guards))
+            E = Engine(M, inline_depth=0)
+            f = Func("dlde", None, h.name, h)
+            paths = [p for p in E.run(f) if p.status == "return"]
+            proved = bool(paths)
+            for p in paths:
+                if not isinstance(p.ret, tuple):
+                    proved = False
+                    continue
+                first = p.ret[1][0] if p.ret[0] == "tuple" and p.ret[1] else p.ret
+                if isinstance(first, tuple) and len(first) == 2 and first[0] == "p" and first[1] in params and n_ok:
+                    line = max([g[2] for g in p.guards] or [h.lineno])
+                    return ("stuck", params.index(first[1]), line, "; ".join(("" if pol else "not ") + show_sv(g)[:60] for g, pol, _ in p.guards))
+                # the position handed back is -1, or strictly beyond a position parameter (path facts: find() results, +1 steps, monotone inner loops)
+                ok_ = first == ("c", -1) or (isinstance(first, tuple) and first and first[0] == "ite" and len(first) == 4 and first[3] == ("c", -1) and n_ok) or \
+                    any(_strictly_greater(first, ("p", a_), p, E, f) for a_ in params)
+                proved = proved and ok_
+            if proved:
+                return True
         except Exception:  # noqa - outside E-PATH: not proven
             pass
     return False
